@@ -52,7 +52,7 @@ def _program(which, flags):
 
 
 @lemma("C12", params=lambda: [(i,) for i in range(len(programs.MODULES) + 1)],
-       bounds="the 7 builder program templates plus a parametrised module (functions called once or twice, a constant loaded once or twice, "
+       bounds="the 8 builder program templates plus a parametrised module (functions called once or twice, a constant loaded once or twice, "
               "polymorphic or monomorphic callee, unused outputs, an order edge between siblings, an order edge to the Output node), one task each",
        outside="other programs; the textual / binary form of the model (needs the native hugr._hugr, absent offline)")
 def exported_module_is_well_scoped(which):
